@@ -141,27 +141,29 @@ def cycle_modules(ck):
     """reference chains n0 -> n1 -> .. -> nk -> nj (a cycle entered after a tail of j links) for each kind of reference, each with
     the uses that make the linker chase them"""
     out = []
-    for tail in range(0, 3):
-        for loop in range(1, 4):
+    for tail, loop, rev in [(t, l, r) for r in (False, True) for t in range(0, 3) for l in range(1, 4)]:
+        if True:
             n = tail + loop
-            ty = ['T%d' % i for i in range(n)]
-            va = ['v%d' % i for i in range(n)]
+            # rev: the entry of the chain sorts last, so the linker (descending name order) meets it before the cycle it leads into
+            ty = ['T%d' % ((n - i) if rev else i) for i in range(n)]
+            va = ['v%d' % ((n - i) if rev else i) for i in range(n)]
             nxt = [(i + 1) if i + 1 < n else tail for i in range(n)]
             tdefs = ' '.join('%s ::= %s' % (ty[i], ty[nxt[i]]) for i in range(n))
             vdefs = ' '.join('%s INTEGER ::= %s' % (va[i], va[nxt[i]]) for i in range(n))
             out += [
-                tdefs + ' w T0 ::= 5',
-                tdefs + ' w T0 ::= 5 u T0 ::= w',
-                tdefs + ' S ::= SEQUENCE { f T0 DEFAULT 3, g T0 OPTIONAL }',
-                tdefs + ' C ::= T0 (1..5) D ::= SEQUENCE OF T0 E ::= CHOICE { a T0 }',
-                tdefs + ' w T0 ::= red x T0 ::= { a 1 } y T0 ::= a : 5',
-                vdefs + ' A ::= INTEGER (0..v0)',
-                vdefs + ' A ::= INTEGER (v0..v0) B ::= SEQUENCE (SIZE (v0)) OF NULL',
-                vdefs + ' S ::= SEQUENCE { f INTEGER DEFAULT v0 }',
-                vdefs + ' o OBJECT IDENTIFIER ::= { 1 2 v0 } B ::= BIT STRING { b (v0) } E ::= ENUMERATED { e (v0) } N ::= INTEGER { n (v0) }',
-                ' '.join('%s ::= SEQUENCE { COMPONENTS OF %s, m%d NULL }' % (ty[i], ty[nxt[i]], i) for i in range(n)) + ' w T0 ::= { m0 NULL }',
-                ' '.join('%s ::= SEQUENCE OF %s' % (ty[i], ty[nxt[i]]) for i in range(n)) + ' w T0 ::= { }',
-                ' '.join('%s ::= SET { a %s OPTIONAL }' % (ty[i], ty[nxt[i]]) for i in range(n)) + ' w T0 ::= { }',
+                tdefs + ' w %s ::= 5' % ty[0],
+                tdefs + ' w %s ::= 5 u %s ::= w' % (ty[0], ty[0]),
+                tdefs + ' S ::= SEQUENCE { f %s DEFAULT 3, g %s OPTIONAL }' % (ty[0], ty[0]),
+                tdefs + ' C ::= %s (1..5) D ::= SEQUENCE OF %s E ::= CHOICE { a %s }' % (ty[0], ty[0], ty[0]),
+                tdefs + ' w %s ::= red x %s ::= { a 1 } y %s ::= a : 5' % (ty[0], ty[0], ty[0]),
+                vdefs + ' A ::= INTEGER (0..%s)' % va[0],
+                vdefs + ' A ::= INTEGER (%s..%s) B ::= SEQUENCE (SIZE (%s)) OF NULL' % (va[0], va[0], va[0]),
+                vdefs + ' S ::= SEQUENCE { f INTEGER DEFAULT %s }' % va[0],
+                vdefs + ' o OBJECT IDENTIFIER ::= { 1 2 %s } B ::= BIT STRING { b (%s) } E ::= ENUMERATED { e (%s) } N ::= INTEGER { n (%s) }' % (va[0], va[0], va[0], va[0]),
+                ' '.join('%s ::= SEQUENCE { COMPONENTS OF %s, m%d NULL }' % (ty[i], ty[nxt[i]], i) for i in range(n)) + ' w %s ::= { m0 NULL }' % ty[0],
+                ' '.join('%s ::= SEQUENCE { m%d NULL, inner SEQUENCE { k%d NULL, COMPONENTS OF %s } }' % (ty[i], i, i, ty[nxt[i]]) for i in range(n)),
+                ' '.join('%s ::= SEQUENCE OF %s' % (ty[i], ty[nxt[i]]) for i in range(n)) + ' w %s ::= { }' % ty[0],
+                ' '.join('%s ::= SET { a %s OPTIONAL }' % (ty[i], ty[nxt[i]]) for i in range(n)) + ' w %s ::= { }' % ty[0],
                 'CLS ::= CLASS { &id INTEGER UNIQUE, &Type } ' + ' '.join('Os%d CLS ::= { Os%d }' % (i, nxt[i]) for i in range(n))
                 + ' S ::= SEQUENCE { id CLS.&id ({Os0}), v CLS.&Type ({Os0}{@id}) }',
                 ' '.join('P%d {X} ::= P%d {X}' % (i, nxt[i]) for i in range(n)) + ' R ::= P0 {INTEGER}',
